@@ -233,7 +233,7 @@ pub fn check_frame(c: &FrameCase, st: &mut Stats) -> Result<(), Viol> {
 // error and not executed (never silently read as something else).
 pub const INVALID_PARAM_LINES: &[&str] = &[
     "STATS uptime", "STATS mu", "STATS uu", "STATS oper", "STATS :u m", "STATS :", "NICK a.b", "NICK a,b", "NICK #x",
-    "JOIN nochanprefix", "JOIN #a:b", "PART nochan", "TOPIC nochan :x", "KICK nochan n1", "INVITE n1 nochan", "PRIVMSG a.b :x", "NOTICE a:b :x",
+    "JOIN nochanprefix", "JOIN #a:b", "JOIN #a,#b onekey", "JOIN #a k1,k2", "PART nochan", "TOPIC nochan :x", "KICK nochan n1", "INVITE n1 nochan", "PRIVMSG a.b :x", "NOTICE a:b :x",
 ];
 
 #[derive(Clone, Debug, Serialize, Deserialize)]
@@ -570,11 +570,14 @@ fn mask_build(cfg: &[u16]) -> Built {
     let src = |i: usize| format!("n{}!~u{}@10.0.0.{}", i, i, i + 1);
     // operator and configured-user masks derived from real sources
     let om = derive_mask(&src(s.pick(users)), &mut s);
+    // (an empty mask is a mask that matches nothing)
+    let om = if s.chance(8) { String::new() } else { om };
     c.opers.push(OperSpec { name: "op0".into(), password: "operpw0".into(), mask: Some(om) });
     // (half of the time the configured user's mask constrains just the nick: registering under
     // that user name works with exactly one nick, wherever the connection comes from)
     // (the nick is one nobody holds at the start, so that new connections can contend for it)
     let um = if s.chance(50) { format!("n{}!*@*", users + s.pick(8 - users)) } else { derive_mask(&src(1 + s.pick(users - 1)), &mut s) };
+    let um = if s.chance(8) { String::new() } else { um };
     c.users.push(UserSpec { name: "u1".into(), nick: "n1".into(), password: None, mask: Some(um) });
     let mut prof = Profile::base().with(&[
         (K::ModeChan, 26),
